@@ -194,6 +194,17 @@ def oracle(case, ob):
                         ent = case.get("interrupts", {}).get(str(c - 7000))
                         if ent:
                             issued.append(ent)
+                # an interrupt issued and refused (RuntimeError) within this very step: the refusal is only
+                # legitimate for a target that is done, has a cancellation pending, or is the caller itself
+                for c in mine:
+                    if 7000 <= c < 8000 and (c + 2000) in mine:
+                        ent = case.get("interrupts", {}).get(str(c - 7000))
+                        if ent and ent[0] != t and ent[0] < len(before[TASKS]):
+                            tkb = before[TASKS][ent[0]]
+                            refusable = tkb[0] or tkb[2] or (tkb[1] != -1 and before[FUTS][tkb[1]][0][0] == 3)
+                            if not refusable and ent[0] not in pending:
+                                return (f"{where}: task_interrupt({ent[0]}) by task {t} was refused although the target "
+                                        f"is an unfinished Python task with no cancellation pending: {tkb}")
                 excs = [c for c in mine if 900 <= c < 1000]
                 if t in pending:
                     exp = pending.pop(t)
